@@ -17,6 +17,8 @@ import GqlProofs.ValSpec.ValuesCorrectFinal
 import GqlProofs.Validate.OverlapSound
 import GqlProofs.Props.C18
 import GqlProofs.Validate.OverlapWitness
+import GqlProofs.EndToEnd.Parsed
+import GqlProofs.EndToEnd.Loaded
 /-
   C08 — validation accepts exactly what the rules allow.
 
@@ -122,6 +124,16 @@ import GqlProofs.Validate.OverlapWitness
   §5.3.2), under `C08Hyps` (parser shape of the document, loader invariants of the schema, and the
   side conditions named above that are not specification predicates themselves); the masked forms
   need no hypothesis there.
+
+  END TO END (section at the bottom of this file; proofs in `GqlProofs/EndToEnd/`): every hypothesis of
+  `C08Hyps` that is about the SHAPE of the document is an invariant of parser output
+  (`parsed_kinds`, `parsed_valuesShaped`, `parsed_constDefaults`, `parsed_typeConds`,
+  `parsed_numLiteralsOK` — the Float half included, `Gql.EndToEnd.float_lexeme_agree` —,
+  `parsed_leavesWellFormed`, `parsed_usePosDistinct`: `GqlProofs/EndToEnd/Parsed.lean`), every
+  hypothesis about the schema alone is an invariant of loader output (`loaded_*`,
+  `GqlProofs/EndToEnd/Loaded.lean`, modulo the recorded non-object-root finding
+  `rootTypesAreObjects`); `C08_parsed_loaded_iff_spec` is the capstone over a SOURCE TEXT and a
+  loaded schema, with only the semantic side conditions left (`C08SemanticHyps`).
 
   NOT finished (the full statement, kept as the goal):
     C08_verdict : Closed s → (validate defaultRules s d = .ok [] ↔ Spec.specValid s d = true)
@@ -1640,3 +1652,113 @@ end C08
 #print axioms C08_UniqueOperationNames_iff
 #print axioms C08_UniqueVariableNames
 #print axioms C08_default_LoneAnonymousOperation
+
+
+/- ======================= END TO END: parsed documents, loaded schemas ======================= -/
+section EndToEnd
+open Gql.EndToEnd Gql.Load
+
+
+/-- the hypotheses of the C08 capstone that speak about the DOCUMENT (shape of parser output, the
+    numeric-literal and leaf-lexeme conditions, the side conditions of SingleFieldSubscriptions and of
+    the VariablesInAllowedPosition finding): `C08Hyps s d` without its schema-side fields -/
+structure C08DocHyps (s : Schema) (d : QueryDoc) : Prop where
+  kinds : ∀ op ∈ d.ops, op.op ∈ parserOpKinds
+  wellParented : Gql.Validate.Spec.wellParented s d = true
+  valuesShaped : valuesShaped s d = true
+  constDefaults : constDefaults d = true
+  typeConds : ∀ f ∈ d.frags, f.typeCond ≠ []
+  selectRoot : subscriptionsSelectRoot s d = true
+  rootKeys : rootKeysConsistent s d = true
+  defaultedLocations : defaultedLocationsHarmless s d = true
+  numLiterals : numLiteralsOK s d = true
+  leaves : leavesWellFormed s d = true
+  usePos : usePosDistinct s d = true
+
+/-- the hypothesis structure of `C08_default_rules_iff_spec_partial`, for a loaded schema -/
+theorem C08Hyps_of_loaded {s : Schema} {d : QueryDoc} (L : LoadedHyps s) (D : C08DocHyps s d) : C08Hyps s d :=
+  { kinds := D.kinds, wellParented := D.wellParented, outputTypes := L.outputTypes d,
+    noEmptyTypeName := L.noEmptyTypeName, possibleOK := L.possibleOK, subscriptionRoot := L.subscriptionRoot,
+    valuesShaped := D.valuesShaped, constDefaults := D.constDefaults, typeConds := D.typeConds,
+    selectRoot := D.selectRoot, rootKeys := D.rootKeys, inputPositions := L.inputPositions,
+    defaultedLocations := D.defaultedLocations, schemaOK := L.schemaOK, argTypes := L.argTypes,
+    directiveArgTypes := L.directiveArgTypes, numLiterals := D.numLiterals, leaves := D.leaves,
+    usePos := D.usePos }
+
+/-- **the C08 capstone for a loaded schema**: the schema-side hypotheses are discharged by the loader -/
+theorem loaded_default_rules_iff_spec_partial {sd : SchemaDoc} {s : Schema} (h : load sd = .ok s)
+    (hp : PreludeDeclared sd) (hks : KindFieldless .scalar sd) (hke : KindFieldless .enum sd) (hn : NamesNonEmpty sd)
+    (hroots : Gql.Spec.rootTypesAreObjects s = true) (d : QueryDoc) (D : C08DocHyps s d) :
+    validate c08Rules s d = .ok [] ↔
+      ((Gql.Validate.Spec.specVerdicts s d).filter (fun p => !c08Uncovered.contains p.1)).all (·.2) = true :=
+  C08_default_rules_iff_spec_partial s d (C08Hyps_of_loaded (loaded_hyps h hp hks hke hn hroots) D)
+
+
+/-- The hypotheses of the capstone that are neither invariants of parser output nor of loader output
+    — the genuinely SEMANTIC side conditions:
+    * `wellParented`: every selection is written where the type in scope is composite (fails only for
+      documents that both sides reject, see the header; no rule-free derivation from validity yet);
+    * `selectRoot`, `rootKeys`: the two hazards of SingleFieldSubscriptions (a subscription that
+      collects no root field; two collected root fields with one response key and different names —
+      the latter is excluded by field merging §5.3.2, the one rule outside `c08Rules`);
+    * `defaultedLocations`: the recorded finding about VariablesInAllowedPosition is not triggered. -/
+structure C08SemanticHyps (s : Schema) (d : QueryDoc) : Prop where
+  wellParented : Spec.wellParented s d = true
+  selectRoot : subscriptionsSelectRoot s d = true
+  rootKeys : rootKeysConsistent s d = true
+  defaultedLocations : defaultedLocationsHarmless s d = true
+
+/-- the document-side hypotheses of the capstone, for a PARSED document: everything about the shape
+    of the tree is discharged by the parser model -/
+theorem C08DocHyps_of_parsed {L : Nat} {inp : Bytes} {d : QueryDoc} (hp : Parser.parseQuery L inp = .ok d)
+    (s : Schema) (S : C08SemanticHyps s d) : C08DocHyps s d :=
+  { kinds := parsed_kinds hp, wellParented := S.wellParented, valuesShaped := parsed_valuesShaped hp s,
+    constDefaults := parsed_constDefaults hp, typeConds := parsed_typeConds hp, selectRoot := S.selectRoot,
+    rootKeys := S.rootKeys, defaultedLocations := S.defaultedLocations, numLiterals := parsed_numLiteralsOK hp s,
+    leaves := parsed_leavesWellFormed hp s, usePos := parsed_usePosDistinct hp s }
+
+/-- `C08Hyps` for a parsed document and ANY schema that satisfies the schema-side bundle -/
+theorem C08Hyps_of_parsed {L : Nat} {inp : Bytes} {d : QueryDoc} (hp : Parser.parseQuery L inp = .ok d)
+    {s : Schema} (Ls : LoadedHyps s) (S : C08SemanticHyps s d) : C08Hyps s d :=
+  C08Hyps_of_loaded Ls (C08DocHyps_of_parsed hp s S)
+
+/-- **C08 END TO END.**  `sd` loads to the schema `s`, the source text `inp` parses (under any token
+    limit `L`) to the document `d`.  Then the 26 default rules with a proved equivalence, run
+    together, report nothing iff the 27 specification predicates they stand for hold.
+    Hypotheses left:
+    * on the schema document: the prelude is part of it (`PreludeDeclared sd`), and the tree has the
+      shape the schema parser produces (`KindFieldless`: scalar / enum definitions carry no fields;
+      `NamesNonEmpty`) — see `Gql.EndToEnd.Loaded` for kernel-checked witnesses that `load` on
+      arbitrary trees needs them;
+    * `rootTypesAreObjects s`: the recorded non-object-root finding (the loader accepts
+      `interface Subscription {…}` / `scalar Query` as root types);
+    * the semantic side conditions `C08SemanticHyps s d`. -/
+theorem C08_parsed_loaded_iff_spec {sd : SchemaDoc} {s : Schema} (hl : load sd = .ok s)
+    (hprel : PreludeDeclared sd) (hks : KindFieldless .scalar sd) (hke : KindFieldless .enum sd) (hn : NamesNonEmpty sd)
+    (hroots : Gql.Spec.rootTypesAreObjects s = true)
+    {L : Nat} {inp : Bytes} {d : QueryDoc} (hp : Parser.parseQuery L inp = .ok d) (S : C08SemanticHyps s d) :
+    validate c08Rules s d = .ok [] ↔
+      ((Spec.specVerdicts s d).filter (fun p => !c08Uncovered.contains p.1)).all (·.2) = true :=
+  C08_default_rules_iff_spec_partial s d (C08Hyps_of_parsed hp (loaded_hyps hl hprel hks hke hn hroots) S)
+
+/-- the single-rule theorems whose only hypotheses were parser shape, over source texts -/
+theorem C08_UniqueArgumentNames_parsed {L : Nat} {inp : Bytes} {d : QueryDoc} (hp : Parser.parseQuery L inp = .ok d)
+    (s : Schema) : validate [uniqueArgumentNames] s d = .ok [] ↔ Spec.argumentUniqueness s d = true :=
+  C08_UniqueArgumentNames s d (parsed_kinds hp)
+
+theorem C08_KnownDirectives_parsed {L : Nat} {inp : Bytes} {d : QueryDoc} (hp : Parser.parseQuery L inp = .ok d)
+    (s : Schema) : validate [knownDirectives] s d = .ok [] ↔
+      (Spec.directivesAreDefined s d = true ∧ Spec.directivesInValidLocations s d = true) :=
+  C08_KnownDirectives s d (parsed_kinds hp)
+
+theorem C08_UniqueInputFieldNames_parsed {L : Nat} {inp : Bytes} {d : QueryDoc} (hp : Parser.parseQuery L inp = .ok d)
+    (s : Schema) : validate [uniqueInputFieldNames] s d = .ok [] ↔ Spec.inputObjectFieldUniqueness s d = true :=
+  C08_UniqueInputFieldNames s d (parsed_valuesShaped hp s)
+
+end EndToEnd
+
+#print axioms C08DocHyps_of_parsed
+#print axioms C08_parsed_loaded_iff_spec
+#print axioms C08_UniqueArgumentNames_parsed
+#print axioms C08_KnownDirectives_parsed
+#print axioms C08_UniqueInputFieldNames_parsed
